@@ -125,6 +125,7 @@ def concat(prog: Program, rep: Report):
     rep.rule("G9.concat-translation", "_to_concat_idx, _InterleavedConcatDataset.__getitem__ and the installed torch "
              "ConcatDataset.__getitem__ have the same translation summary: negative -> len(self) + idx, part = "
              "bisect_right(cumulative_sizes, idx), local = idx (first part) / idx - cumulative_sizes[part - 1]")
+    prog = prog.raw  # _to_concat_idx is summarised as a unit (and compared with its siblings), not inlined
     C = prog.cls("KDConcatDataset")
     rep.analysed_add("classes", C.qualname)
     _getattr_routes(prog, rep, C, "C02.1")
